@@ -949,6 +949,22 @@ theorem C09_conditions_regenerated :
     conds_Size = ["err != nil"] := by
   decide
 
+open Hive.Gen.C09Consts in
+/-- **The root and size cells** (`kvstore.TypedValue`, kvstore/typedvalue.go, regenerated): `Set` encodes, writes, and
+only then caches — a `Set` whose encoder or whose write fails leaves store and cache as they were (what `istepG` and
+`fstep` assume about a failed `Commit` / `addSize`); `Get` caches "absent" only for `ErrKeyNotFound` and a value only
+after it decoded (so a cell that does not decode is read again by `WasRestoredFromStorage`). -/
+theorem C09_typed_value_cells_regenerated :
+    typedValue_Set = ["t.vToBytes", "return ierrors.Wrap(err, \"failed to encode value\")", "t.kv.Set",
+      "return ierrors.Wrap(err, \"failed to store value in KV store\")", "t.valueCached = &value", "t.hasCached = &truePtr",
+      "return nil"] ∧
+    typedValue_Get = ["return value, ErrKeyNotFound", "return *t.valueCached, nil", "return value, ErrKeyNotFound",
+      "return *t.valueCached, nil", "t.kv.Get", "t.hasCached = &falsePtr",
+      "return value, ierrors.Wrap(valueBytesErr, \"failed to retrieve value from KV store\")", "t.bytesToV",
+      "return value, ierrors.Wrap(err, \"failed to decode value\")", "t.valueCached = &value", "t.hasCached = &truePtr",
+      "return value, nil"] := by
+  decide
+
 /-! ## the identifier serializers (`Hive/Model/AdsId.lean`): the root cell goes through them, the import uses the raw root -/
 
 section IdCodecs
